@@ -17,3 +17,5 @@ open Just.Props.C03
 #print axioms resolveAssignments_no_fuel
 #print axioms resolveRecipes_no_fuel
 #print axioms bad_call_never_parses
+#print axioms duplicates_rejected_iff
+#print axioms mixed_kinds_always_rejected
